@@ -131,10 +131,77 @@ def run_controls(prop, rules, rep):
     return results
 
 
+def benign_files(prop):
+    """Behaviour-preserving edits (controls/benign) that touch a file anchored by `prop`."""
+    anchors = set()
+    try:
+        with open(os.path.join(core.VERIF, 'properties.jsonl')) as f:
+            for line in f:
+                rec = json.loads(line)
+                if rec['id'] == prop:
+                    anchors = set(rec['anchors']['files'])
+    except OSError:
+        return []
+    out = []
+    base = os.path.join(core.VERIF, 'controls', 'benign')
+    if not os.path.isdir(base):
+        return out
+    for fn in sorted(os.listdir(base)):
+        if not fn.endswith('.diff'):
+            continue
+        touched = set()
+        with open(os.path.join(base, fn)) as f:
+            for line in f:
+                if line.startswith('+++ '):
+                    pth = line[4:].strip().split('\t')[0]
+                    touched.add(pth[2:] if pth.startswith(('a/', 'b/')) else pth)
+        if touched & anchors:
+            out.append(os.path.join(base, fn))
+    return out
+
+
+def run_benign(prop, rules, rep):
+    """The rules must stay silent on every behaviour-preserving edit of the property's files."""
+    results = []
+    for cf in benign_files(prop):
+        name = os.path.relpath(cf, core.VERIF)
+        tmp = tempfile.mkdtemp(prefix='ppben.')
+        try:
+            dst = os.path.join(tmp, 'repo')
+            shutil.copytree(core.REPO, dst, ignore=shutil.ignore_patterns('target', '.git'))
+            r = subprocess.run(['patch', '-p1', '--no-backup-if-mismatch', '-i', cf], cwd=dst, stdout=subprocess.PIPE, stderr=subprocess.STDOUT, text=True)
+            if r.returncode != 0:
+                results.append({'benign': name, 'status': 'skipped', 'why': 'patch does not apply to the current tree'})
+                continue
+            try:
+                d = core.build_facts('dev', repo=dst, use_cache=False)
+            except core.Infra:
+                results.append({'benign': name, 'status': 'skipped', 'why': 'does not compile on the current tree'})
+                continue
+            fx = Facts(os.path.join(d, 'pairing_plus.json'))
+            shutil.rmtree(d, ignore_errors=True)
+            sub = core.Report(prop)
+            try:
+                rules(fx, CfgReport(sub, 'dev'))
+                fired = sub.violations()
+            except Exception as e:
+                fired = [{'rule': 'internal', 'instance': 'exception', 'detail': repr(e)}]
+            if fired:
+                results.append({'benign': name, 'status': 'FALSE-ALARM', 'by': ['%s|%s' % (o['rule'], o['instance']) for o in fired][:4]})
+                rep.fail('BENIGN', name, 'the rules fire on a behaviour-preserving edit: %s' % [o['detail'][:120] for o in fired][:2])
+            else:
+                results.append({'benign': name, 'status': 'silent'})
+                rep.ok('BENIGN', name, 'rules stay silent on this behaviour-preserving edit')
+        finally:
+            shutil.rmtree(tmp, ignore_errors=True)
+    return results
+
+
 def standard_main(prop, tier, t0, rules, level, explanation, trusted_base, assumptions, extra=None):
     rep = run_rules(prop, tier, rules)
     ex = dict(extra or {})
     ex['configurations'] = [c for c, _ in configs(tier)]
     if tier == 'thorough':
         ex['controls'] = run_controls(prop, rules, rep)
+        ex['benign_edits'] = run_benign(prop, rules, rep)
     return core.finish(rep, tier, level, t0, explanation, trusted_base, assumptions, extra=ex)
